@@ -356,13 +356,23 @@ def run(replay_path=None, replay=None):
                      "histories": len(r.records)}
         return r
 
-    full_bounds = (2, 1, 2) if t == "quick" else (3, 1, 2)
+    deep_names = ("other_unit",) if t == "quick" else ("other_unit", "dB_same", "three_units", "uncertain", "angles", "dimensionless",
+                                                        "decimal_right", "array_left")
+    deep_confs = [CONFIGS[k] for k in deep_names]
+    deep_pure = C.tla_str(set(REP_PURE_QUICK if t == "quick" else REP_PURE))
+    deep_inpl = '{"to", "abse_set"}' if t == "quick" else '{"to", "abse_set", "rebase"}'
+    deep_bounds = (3, 2, 1) if t == "quick" else (4, 2, 2)
+    key_confs = [CONFIGS[k] for k in ("other_unit", "dB_same", "uncertain")]
+    full_bounds = (2, 1, 2)
     # 1a. the repaired design satisfies the property
-    ra = model("repaired_design", [CONFIGS[k] for k in QUICK_REPAIRED] if t == "quick" else configs, "AllPureOps", "InplaceOps", True,
-               (2, 1, 2) if t == "quick" else (3, 2, 2),
-               ["Frame", "NoShare", "SameObjects"], emit=False)
-    if ra.violated:
-        raise C.MachineryError(f"the repaired machine violates {ra.violated}: the ideal/machine pair is inconsistent\n{ra.cex[:3000]}")
+    rep_runs = [("repaired_design", [CONFIGS[k] for k in QUICK_REPAIRED] if t == "quick" else configs, "AllPureOps", "InplaceOps", full_bounds, False)]
+    if t != "quick":
+        rep_runs.append(("repaired_design_deep", deep_confs, deep_pure, deep_inpl, deep_bounds, True))
+        rep_runs.append(("repaired_design_3", key_confs, "AllPureOps", "InplaceOps", (3, 1, 2), False))
+    for name, confs, pure, inpl, bounds, view in rep_runs:
+        ra = model(name, confs, pure, inpl, True, bounds, ["Frame", "NoShare", "SameObjects"], emit=False, view=view, prop=not view)
+        if ra.violated:
+            raise C.MachineryError(f"the repaired machine violates {ra.violated}: the ideal/machine pair is inconsistent\n{ra.cex[:3000]}")
     # 1b. sensitivity: the pinned machine yields the aliasing counterexamples
     sens = {}
     for inv in ("Frame", "NoShare"):
@@ -371,17 +381,19 @@ def run(replay_path=None, replay=None):
         if not rs.violated:
             raise C.MachineryError(f"the pinned machine does not violate {inv}: the spec lost its sensitivity")
     # 1c. every history of the full alphabet
-    rf = model("pinned_full", configs, "AllPureOps", "InplaceOps", False, full_bounds, ["AllNamed"])
-    if rf.violated:
-        V.notes.append(f"TLC: {rf.violated} violated on the pinned machine: {rf.cex[:500]}")
-    recs = [dict(r, src="full") for r in rf.records]
+    recs = []
+    full_runs = [("pinned_full", configs, full_bounds)] + ([("pinned_full_3", key_confs, (3, 1, 2))] if t != "quick" else [])
+    for name, confs, bounds in full_runs:
+        rf = model(name, confs, "AllPureOps", "InplaceOps", False, bounds, ["AllNamed"])
+        if rf.violated:
+            V.notes.append(f"TLC: {rf.violated} violated on the pinned machine: {rf.cex[:500]}")
+        recs += [dict(r, src="full") for r in rf.records if not (name == "pinned_full_3" and len(r["hist"]) < 3)]
+        rf.records = None
     # 1d. deeper histories over representative operations (one path per distinct heap state)
-    deep_confs = [CONFIGS[k] for k in (("other_unit",) if t == "quick" else
-                                       ("other_unit", "dB_same", "three_units", "uncertain", "angles", "dimensionless", "decimal_right", "array_left"))]
-    rd = model("pinned_deep", deep_confs, C.tla_str(set(REP_PURE_QUICK if t == "quick" else REP_PURE)),
-               '{"to", "abse_set"}' if t == "quick" else '{"to", "abse_set", "rebase"}', False,
-               (3, 2, 1) if t == "quick" else (4, 2, 2), ["AllNamed"], view=True, prop=False)
+    rd = model("pinned_deep", deep_confs, deep_pure, deep_inpl, False, deep_bounds, ["AllNamed"], view=True, prop=False)
     recs += [dict(r, src="deep") for r in rd.records]
+    rd.records = None
+    recs.sort(key=lambda r: (r["src"], json.dumps([r["cfg"], [s["a"] for s in r["hist"]]], sort_keys=True)))
     # 2. replay
     jobs = []
     for i, r in enumerate(recs):
@@ -430,11 +442,11 @@ def run(replay_path=None, replay=None):
     V.cov.update({
         "states": states, "transitions": trans, "traces_validated_against_impl": len(jobs),
         "evaluations": len(jobs), "distinct_nontrivial": len(nontriv),
-        "rule": "histories = every sequence of <= {} steps with <= {} operation(s) of the full alphabet ({} operations incl. all documented "
+        "rule": "histories = every sequence of <= {} steps (3 for three key configurations in the thorough tier) with <= {} operation(s) of the full alphabet ({} operations incl. all documented "
                 "NumPy functions) and <= {} in-place methods, from 14 initial configurations (TLC, exhaustive), plus one path to every "
                 "distinct heap state of depth <= {} over 7-12 representative operations; each replayed on real objects with all live objects "
                 "snapshotted after every step; non-trivial = distinct histories with >= 2 steps or a fired deviation".format(
-                    full_bounds[0], full_bounds[1], len(ops_seen), full_bounds[2], 3 if t == "quick" else 4),
+                    full_bounds[0], full_bounds[1], len(ops_seen), full_bounds[2], deep_bounds[0]),
         "samples": [dict(history=brief(j), style=j["style"], steps=[dict(op=s["a"]["op"], x=s["a"]["x"], y=s["a"]["y"], receiver=s["recv"],
                                                                          deviations=s["devs"], raises=s["raises"]) for s in j["hist"]])
                     for j in (jobs[len(jobs) // 7], jobs[len(jobs) // 2], jobs[-1])],
